@@ -1415,7 +1415,7 @@ impl Prop for C20Prop {
                 "confinement is observed inside a sandbox tree that contains every location the enumerated escaping names resolve to (relative: up to two levels above the temp dir; absolute: a path inside the sandbox)".into(),
                 "symlink members, compressed (deflate) members, non-zip formats (libarchive feature is off in this build) and the single-member-named-'data' renaming special case are not enumerated".into(),
             ],
-            budget_s: (30, 1100),
+            budget_s: (90, 1100),
             workers: 0,
             required_landmarks: vec![
                 "chain:case_with_empty_volume",
